@@ -306,9 +306,9 @@ SPEC = {
                  sets={'n_components': [2, 3], 'normalized': [True, False], 'factor_singular': [0., 1.]},
                  targets=['und', 'bip', 'dir', 'blocks']),
     'SVD': dict(params=lambda r: dict(n_components=r.choice([2, 3]), normalized=r.random() < 0.5),
-                sets={'n_components': [2, 3], 'normalized': [True, False]}, targets=['und', 'bip', 'dir']),
+                sets={'n_components': [2, 3], 'normalized': [True, False]}, targets=['und', 'bip', 'dir', 'blocks', 'disc']),
     'PCA': dict(params=lambda r: dict(n_components=r.choice([2, 3]), normalized=r.random() < 0.5),
-                sets={'n_components': [2, 3], 'normalized': [True, False]}, targets=['und', 'bip', 'dir']),
+                sets={'n_components': [2, 3], 'normalized': [True, False]}, targets=['und', 'bip', 'dir', 'blocks', 'disc']),
     'Spectral': dict(params=lambda r: dict(n_components=r.choice([2, 3]), decomposition=r.choice(['rw', 'sym']),
                                            normalized=r.random() < 0.5),
                      sets={'n_components': [2, 3], 'decomposition': ['rw', 'sym'], 'normalized': [True, False]},
@@ -322,10 +322,10 @@ SPEC = {
                              sets={'resolution': [1, 2], 'isolated_nodes': ['remove', 'merge']},
                              targets=['blocks', 'und', 'bip']),
     'Betweenness': dict(params=lambda r: dict(normalized=r.random() < 0.5), sets={'normalized': [True, False]},
-                        targets=['und', 'blocks']),
+                        targets=['und', 'und']),      # (needs a connected graph)
     'Closeness': dict(params=lambda r: dict(method=r.choice(['exact', 'approximate']), tol=r.choice([0.1, 0.3])),
                       sets={'method': ['exact', 'approximate'], 'tol': [0.2, 0.5]}, targets=['und']),
-    'HITS': dict(params=lambda r: dict(), sets={}, targets=['und', 'dir', 'bip']),
+    'HITS': dict(params=lambda r: dict(), sets={}, targets=['und', 'dir', 'bip', 'blocks', 'disc']),
     'Katz': dict(params=lambda r: dict(damping_factor=r.choice([0.3, 0.5]), path_length=r.choice([2, 4])),
                  sets={'damping_factor': [0.2, 0.5], 'path_length': [2, 3]}, targets=['und', 'dir', 'bip']),
     'PageRank': dict(params=lambda r: dict(damping_factor=r.choice([0.5, 0.85]), solver=r.choice(['piteration', 'diteration', 'lanczos', 'bicgstab', 'RH']),
@@ -358,7 +358,7 @@ SPEC = {
                           sets={}, targets=['und', 'blocks', 'blocks']),
     'LanczosEig': dict(params=lambda r: dict(which=r.choice(['LM', 'SM', 'LA'])), sets={'which': ['LM', 'LA']},
                        targets=['und', 'blocks', 'bip']),
-    'LanczosSVD': dict(params=lambda r: dict(), sets={}, targets=['und', 'bip', 'dir']),
+    'LanczosSVD': dict(params=lambda r: dict(), sets={}, targets=['und', 'bip', 'dir', 'blocks', 'disc']),
 }
 
 
@@ -382,6 +382,13 @@ def accepted_params(name):
         return sorted(SPEC[name]['sets'])
     attrs = {i['attr'] for i in d['init']}
     return [p for p in d['params'] if p in attrs and p not in ('random_state', 'verbose')]
+
+
+def _stores_seed(name):
+    """does the class keep `random_state` unchanged as an attribute of its own (then assigning it is an operation of
+    the model: `Op.setParam` on a setable attribute)?"""
+    d = _GEN.get('descs', {}).get(name)
+    return bool(d) and any(i['attr'] == 'random_state' and i['kind'] == 'param' for i in d['init'])
 
 
 def derived_params(name):
@@ -439,22 +446,38 @@ def make_job(rng, name, n_hist=None, target_kind=None):
     n_hist = rng.choice([0, 1, 1, 2, 2, 3]) if n_hist is None else n_hist
     hist = []
     names = accepted_params(name)
+    cls = W.estimator_classes().get(name)
+    entries = ['fit'] + [m for m in ('fit_predict', 'fit_transform') if cls is not None and callable(getattr(cls, m, None))]
+
+    def fit_input(kind):
+        inp = make_input(rng, kind)
+        if name == 'LouvainEmbedding':
+            inp.pop('dense', None)        # (it refuses a dense array: a matter of C01)
+        inp['kw'] = _fit_kw(name, rng)
+        if rng.random() < 0.25:
+            inp['entry'] = rng.choice(entries)
+        return inp
     for _ in range(n_hist):
         done = False
-        if names and rng.random() < 0.35:
+        u = rng.random()
+        if names and u < 0.35:
             k = rng.choice(names)
             v, ok = set_value(rng, name, k)
             if ok:
-                hist.append({'op': 'set', 'params': {k: v}})
+                ps = {k: v}
+                if rng.random() < 0.1:
+                    ps['no_such_parameter'] = 1      # the first item is applied, then set_params raises
+                hist.append({'op': 'set', 'params': ps})
                 done = True
+        elif 'random_state' in params and _stores_seed(name) and u < 0.45:
+            # the seed is changed by plain assignment (set_params refuses the name)
+            hist.append({'op': 'attr', 'params': {'random_state': _seed(rng)}})
+            done = True
         if not done:
             # earlier fits see every kind of input (also the ones on which this class raises)
-            kind = rng.choice(KINDS if rng.random() < 0.5 else spec['targets'] + ['bip'])
-            inp = make_input(rng, kind)
-            inp['kw'] = _fit_kw(name, rng)
+            inp = fit_input(rng.choice(KINDS if rng.random() < 0.5 else spec['targets'] + ['bip']))
             hist.append({'op': 'fit', 'input': inp, 'np_seed': rng.randrange(10 ** 6)})
-    target = make_input(rng, target_kind or rng.choice(spec['targets']))
-    target['kw'] = _fit_kw(name, rng)
+    target = fit_input(target_kind or rng.choice(spec['targets']))
     return {'kind': 'est', 'cls': name, 'params': params, 'history': hist, 'target': target,
             'np_seed': rng.randrange(10 ** 6)}
 
@@ -463,8 +486,8 @@ def current_params(job):
     """Constructor parameters of the fresh object: the initial ones updated by the set_params of the history."""
     p = dict(job['params'])
     for op in job['history']:
-        if op['op'] == 'set':
-            p.update(op['params'])
+        if op['op'] in ('set', 'attr'):
+            p.update({k: v for k, v in op['params'].items() if k != 'no_such_parameter'})
     return p
 
 
@@ -701,6 +724,8 @@ def _est_cases(ctx, job, static_names):
                 r['state'] = {k: v for k, v in r['state'].items() if k not in set_names}
     cases = []
     desc = {'job': job}
+    if fresh['outcome'] != 'ok' and hasattr(ctx, 'count'):
+        ctx.count('target-raises:%s:%s' % (name, fresh['outcome'][4:].split(':')[0]))
     hist_fits = [op for op in job['history'] if op['op'] == 'fit']
     nontrivial = fresh['outcome'] == 'ok' and len(hist_fits) > len(refit.get('history_errors', [])) - sum(
         1 for e in refit.get('history_errors', []) if e.startswith('set:'))
@@ -891,6 +916,8 @@ def function_jobs(rng):
         inp = make_input(rng, kind, n=rng.randint(8, 14))
         for fn, kw, lab in PUBLIC_FUNCTIONS:
             if fn == 'hierarchy:cut_straight':
+                continue
+            if (kind == 'dir' and fn == 'topology:is_bipartite') or (kind == 'bip' and fn == 'utils:directed2undirected'):
                 continue
             if kind in ('dir', 'bip') and (lab or fn.split(':')[0] in ('hierarchy',) or
                                            (kind == 'bip' and fn.split(':')[0] in ('topology', 'path', 'clustering'))):
@@ -1463,8 +1490,11 @@ def replay(ctx, payload):
     job = case.get('job')
     static = set(_GEN.get('descs', {}))
     if not job:
-        # an obligation without a failing input: re-decide the obligations
+        # an obligation (or a crash of a worker) without a failing input: re-decide the obligations and repeat the
+        # fresh-interpreter sweep of the kernels and functions
         obligations(ctx)
+        bad, _ = sweep(ctx, [], model_jobs(ctx.rng) + function_jobs(ctx.rng) + kernel_jobs(ctx.rng), THREADS_QUICK, 1, {})
+        report_sweep(ctx, bad)
         return
     if job['kind'] == 'est':
         cs, _, fj = est_cases(ctx, job, static)
